@@ -212,6 +212,7 @@ class ParserContext:
 
     def __init__(self) -> None:
         self.modules: Dict[str, str] = {}
+        self.importing: List[pathlib.Path] = []
 
     def set_module(self, name: str, module: str) -> None:
         """Set the source code module being parsed."""
@@ -461,12 +462,18 @@ class FcpV2Transformer(Transformer):
         except FileNotFoundError as e:
             return error(f"File not found: {pathlib.Path(e.filename).name}")
 
+        if filename in self.parser_context.importing:
+            return error(
+                f"Cyclic import of {filename.name}", Token(_get_meta(tree, self))
+            )
+
         try:
             self.error_logger.add_source(str(filename), source)
             fcp_ast = fcp_parser.parse(source)
         except (UnexpectedCharacters, UnexpectedEOF) as e:
             return _lark_error(self.error_logger, filename, source, e)
 
+        self.parser_context.importing.append(filename)
         try:
             fcp = FcpV2Transformer(
                 filename,
@@ -476,6 +483,8 @@ class FcpV2Transformer(Transformer):
             ).transform(fcp_ast)
         except VisitError as e:
             return _visit_error(filename, e)
+        finally:
+            self.parser_context.importing.pop()
 
         self.fcp.merge(
             fcp.map_err(
@@ -613,6 +622,7 @@ def _get_fcp(
         return _lark_error(logger, filename, source, e)
 
     parser_context = ParserContext()
+    parser_context.importing.append(filename.resolve())
 
     try:
         fcp = FcpV2Transformer(
